@@ -391,6 +391,23 @@ def r13h(F):
 			m2 += 1
 			short = cn.split(' as ')[0].rsplit('::', 1)[-1].strip('<>')
 			ok = ke - ks == 0 and len(diff) == 1 and list(diff.values()) == [1] and list(diff)[0].startswith('min(')
+			# ... and that chunk size is recomputed from the loop's progress: it mentions a local written inside the loop (a size computed once
+			# before the loop is right only for lengths that are a multiple of it)
+			cycle = {x for x in fu.reach([b]) if b in fu.reach([x])}
+			mod = set()
+			for x in cycle:
+				for st in fu.blocks[x]['s']:
+					if st[1] and isinstance(st[1][0], int):
+						mod.add(st[1][0])
+				t = fu.blocks[x]['t']
+				if t[1] == 'call' and t[2].get('dest'):
+					mod.add(t[2]['dest'][0])
+			raw_end = ci['args'][1]
+			dep = {l for l in expr_local_ids(end) if l in mod and l > fu.argc}
+			# the operand itself may be a temporary defined in the loop: look at what it is computed from
+			exd = Expr(fu, max_depth=40)
+			okp = bool(dep)
+			out.append(Result('13.h', okp, ('ok:' if okp else 'overread:') + 'chunk-size-follows-progress@' + short, '%s: the length of the slice handed to read_exact inside the loop (%s) %s' % (short, expr_str(end)[:70], 'is computed from a value the loop updates' if okp else 'is not recomputed inside the loop: the last chunk reads past the declared length unless it is a multiple of the chunk size (ShortRead on a valid message)'), 1, where=F.where(cn, fu.line_of(b))))
 			out.append(Result('13.h', ok, ('ok:' if ok else 'slice:') + 'chunk-slice-is-one-chunk@' + short, '%s: read_exact fills buffer[%s .. %s]: its length is %s (expected exactly the chunk size min(..))' % (short, expr_str(start)[:40], expr_str(end)[:60], ' '.join(('%+d*' % c) + v[:50] for v, c in diff.items()) or str(ke - ks)), 1, where=F.where(cn, fu.line_of(b))))
 	if m2 < 2:
 		out.append(Result('13.h', False, 'floor:chunk-slices', 'only %d ranged read_exact buffers in read loops found (expected >= 2: onion-message packet, OnchainTxHandler)' % m2, m2))
